@@ -2,7 +2,7 @@
 are edited on real nested Proof objects.  Projection only - no verdict is computed here (spec/X02_Trace.tla does that).
 
 modes
-  vectors <tlc.log> <out.ndjson>              spec -> code: every behaviour printed by spec/X02_Export.tla (<<"X02V", json>>)
+  vectors <tlc.log> <out.ndjson> [all_upto sample seed]  spec -> code: the behaviours printed by spec/X02_Export.tla (<<"X02V", json>>)
   random  <n> <out.ndjson> <seed>             code-driven: seeded larger DAGs (more rules, duplicates, repeated gaps, atoms), random hosts
   library <out.ndjson> <seed> <n_per> <th,..> the proof terms of the library's macros on recorded proofs
   idsvec  <tlc.log> <out.ndjson>              spec -> code: behaviours of spec/X02_ItemId.tla (<<"X02I", json>>) on real Proof/ItemID
@@ -180,12 +180,14 @@ def proof_vars(prf):
 def run_behaviour(I, ev, pt, hostf, sub, use_none_prefix=False):
     """export -> embed -> check -> print -> parse, each step projected.  hostf(goal sequent) -> (enclosing Proof or None, goal id)"""
     from server import server, method
-    ev["gaps"] = [json.loads(s) for s in sorted({json.dumps(I.seq(g), sort_keys=True) for g in pt.gaps})]
+    gaps = getattr(pt, "gaps", None)
+    if gaps is not None:       # not observable otherwise: the field is absent and the clause is not judged
+        ev["gaps"] = [json.loads(s) for s in sorted({json.dumps(I.seq(g), sort_keys=True) for g in gaps})]
     host, goal = hostf(pt.th)
     ev["pfx"], ev["sub"] = list(goal), bool(sub)
     ev["host"] = []
     ev["exp"] = {"ok": False, "exc": "", "lines": []}
-    ev["emb"] = {"ok": False, "exc": "", "lines": []}
+    ev["emb"] = {"ok": False, "na": False, "exc": "", "lines": []}
     ev["chk"] = {"ok": False, "exc": "", "lines": []}
     ev["rt"] = {"examined": False, "ok": False, "exc": "", "lines": []}
     if host is not None:
@@ -215,15 +217,20 @@ def run_behaviour(I, ev, pt, hostf, sub, use_none_prefix=False):
             g.rule = "subproof"
             g.subproof = prf
             whole = host
+        elif not hasattr(method.ProofState, "add_line_before"):
+            ev["emb"]["na"] = True          # the callers' way of making room is not observable on this tree
+            return
         else:
             st = method.ProofState()
             st.prf = host
             st.add_line_before(ItemID(goal), len(prf.items) - 1)
             for it in prf.items:
-                par = st.prf.get_parent_proof(it.id)
-                par.items[it.id.last()] = it
+                par = st.prf
+                for k in it.id.id[:-1]:
+                    par = par.items[k].subproof
+                par.items[it.id.id[-1]] = it
             whole = st.prf
-        ev["emb"] = {"ok": True, "exc": "", "lines": proj_lines(I, whole)}
+        ev["emb"] = {"ok": True, "na": False, "exc": "", "lines": proj_lines(I, whole)}
     except Exception as e:
         ev["emb"]["exc"] = exc_str(e)
         return
@@ -245,6 +252,7 @@ def run_behaviour(I, ev, pt, hostf, sub, use_none_prefix=False):
         ev["rt"]["exc"] = "context: " + exc_str(e)
         return
     ev["rt"]["examined"] = True
+    data = []
     try:
         st = method.ProofState()
         st.prf = whole
@@ -253,6 +261,14 @@ def run_behaviour(I, ev, pt, hostf, sub, use_none_prefix=False):
         ev["rt"].update({"ok": True, "lines": proj_lines(I, st2.prf)})
     except Exception as e:
         ev["rt"]["exc"] = exc_str(e)
+        # which printed line does not parse on its own (projection for the report; the verdict does not use it)
+        from syntax import parser
+        for line in data:
+            try:
+                parser.parse_proof_rule(line)
+            except Exception:
+                ev["rt"]["line"] = {"rule": str(line.get("rule")), "args": str(line.get("args"))[:80], "th": str(line.get("th"))[:80]}
+                break
 
 
 # ------------------------------------------------------------------------------------------------ spec -> code
@@ -283,17 +299,26 @@ def tlc_lines(path, tag):
             yield json.loads(json.loads(ln.strip()[len(pre):-2]))
 
 
-def vectors(tlc_log, out_path):
+def vectors(tlc_log, out_path, all_upto=99, sample=0, seed=0):
+    """behaviours with <= all_upto nodes are all replayed, of the larger ones a seeded sample"""
     basic.load_theory("logic_base")
     A, B = Var("A", BoolType), Var("B", BoolType)
     out = Out(out_path)
     I = Intern()
     n = 0
+    vs, seen = [], set()
     for v in tlc_lines(tlc_log, "X02V"):
         key = "v:" + digest(v)
-        if key in out.seen:
+        if key not in seen:
+            seen.add(key)
+            vs.append((key, v))
+    big = [kv for kv in vs if len(kv[1]["nodes"]) > all_upto]
+    random.Random(seed).shuffle(big)
+    keep = {k for k, _ in big[:sample]}
+    print("behaviours printed", len(vs), "larger than", all_upto, ":", len(big))
+    for key, v in vs:
+        if len(v["nodes"]) > all_upto and key not in keep:
             continue
-        out.seen.add(key)
         n += 1
         ev = {"kind": "export", "fam": "tlc", "key": key, "host_id": v["host"], "built": True, "nodes": [], "root": len(v["nodes"]), "xth": []}
         pts = []
@@ -382,7 +407,7 @@ def rnd_family(n, out_path, seed):
         for idv, th in visible:
             if rnd.random() < 0.6:
                 add(ProofTerm.atom(ItemID(idv), th))
-        size = rnd.randint(4, 30)
+        size = rnd.randint(4, 40)
         tries = 0
 
         def pick():
@@ -390,7 +415,7 @@ def rnd_family(n, out_path, seed):
 
         def eqs():
             return [p for p in pts if p.prop.is_equals()]
-        while len(pts) < size and tries < 600:
+        while len(pts) < size and tries < 1200:
             tries += 1
             k = rnd.random()
             try:
@@ -467,10 +492,13 @@ def rnd_family(n, out_path, seed):
                     if cands:
                         add(ProofTerm("forall_elim", rnd.choice([x, y, f(x)]), [rnd.choice(cands)]))
                 elif k < 0.92:
-                    inst = Inst(**{nm: rnd.choice([A, B, Implies(A, B)]) for nm in rnd.sample(["P", "Q"], rnd.randint(1, 2))})
+                    inst = Inst(**{nm: rnd.choice([A, B, Implies(A, B)]) for nm in rnd.sample(["P", "Q"], rnd.randint(0, 2))})
+                    if rnd.random() < 0.2:
+                        inst.tyinst["a"] = rnd.choice([BoolType, a])
                     add(ProofTerm("substitution", inst, [pick()]))
                 elif k < 0.95:
-                    add(ProofTerm("subst_type", TyInst(a=rnd.choice([BoolType, a, TFun(a, a)])), [pick()]))
+                    ty = TyInst(a=rnd.choice([BoolType, a, TFun(a, a)])) if rnd.random() < 0.85 else TyInst()
+                    add(ProofTerm("subst_type", ty, [pick()]))
                 else:
                     c = eqs()
                     if len(c) >= 1:
@@ -747,7 +775,7 @@ def ids_random(n, out_path, seed):
 if __name__ == "__main__":
     mode = sys.argv[1]
     if mode == "vectors":
-        vectors(sys.argv[2], sys.argv[3])
+        vectors(sys.argv[2], sys.argv[3], *[int(a) for a in sys.argv[4:7]])
     elif mode == "random":
         rnd_family(int(sys.argv[2]), sys.argv[3], int(sys.argv[4]))
     elif mode == "library":
